@@ -667,18 +667,24 @@ def dict_update(eng, args, kwargs, st, node):
 @method('dict.keys')
 def dict_keys(eng, args, kwargs, st, node):
     o = st.heap[args[0].loc]
+    if not isinstance(o, HDict):
+        raise Undecided('dict.keys of a dict with a symbolic key set', node)
     return [(VTuple([VStr(StrV(k)) for k in o.entries]), st)]
 
 
 @method('dict.items')
 def dict_items(eng, args, kwargs, st, node):
     o = st.heap[args[0].loc]
+    if not isinstance(o, HDict):
+        raise Undecided('dict.items of a dict with a symbolic key set', node)
     return [(VTuple([VTuple([VStr(StrV(k)), v]) for k, v in o.entries.items()]), st)]
 
 
 @method('dict.values')
 def dict_values(eng, args, kwargs, st, node):
     o = st.heap[args[0].loc]
+    if not isinstance(o, HDict):
+        raise Undecided('dict.values of a dict with a symbolic key set', node)
     return [(VTuple(list(o.entries.values())), st)]
 
 
